@@ -6,8 +6,28 @@ import SalsaVerif.Proofs.CoreAccRun
 namespace SalsaVerif.Proofs.CoreAcc
 open SalsaVerif.Model.CoreAcc
 
-theorem sok_of_never {P s m} (hI : Inv P s) (h3 : 3 ≤ m.dur) (hva : 1 ≤ m.va) : SOK s m := by
-  right; rw [hI.lc_never m.dur h3]; exact hva
+theorem discard_pairs (d : Nat) (a : Bool) (l : List Obs) : obsPairs (discardEdges d a l) = obsPairs l := by
+  unfold discardEdges
+  split
+  · simp [obsPairs, List.map_map, Function.comp_def]
+  · rfl
+
+/-- `discard_edges_if_never_change` only drops edges that were not needed: to NEVER_CHANGE
+    dependencies without accumulated values -/
+theorem discard_readOk {r t} {f : Frame} {l : List Obs} (h : ∀ o, o ∈ l → ReadOk r t f o) :
+    ∀ o, o ∈ discardEdges f.dur f.accIn l → ReadOk r t f o := by
+  unfold discardEdges
+  split
+  · rename_i hc
+    intro o ho
+    simp only [List.mem_map] at ho
+    obtain ⟨o0, ho0, he⟩ := ho
+    subst he
+    obtain ⟨hh, ⟨x, h0, hv, hca, hd, _, hfa⟩, hlt⟩ := h o0 ho0
+    refine ⟨hh, ⟨x, h0, hv, hca, hd, ?_, hfa⟩, hlt⟩
+    intro _
+    exact ⟨by rw [← hc.1]; exact hd, hfa hc.2⟩
+  · exact h
 
 theorem execute_ok {P r fe} (hP : Wf P) (hfe : FetchSpec P r fe) (s : State) (old : Option Memo)
     (hI : Inv P s) (hold : s.memos r = old)
@@ -18,19 +38,25 @@ theorem execute_ok {P r fe} (hP : Wf P) (hfe : FetchSpec P r fe) (s : State) (ol
     Inv P (execute fe P s r old).1 ∧ Ext s (execute fe P s r old).1 (r + 1) ∧
     (execute fe P s r old).2.val = sem P s.inp r ∧
     ∃ m, (execute fe P s r old).1.memos r = some m ∧ m.va = s.cur ∧
-      m.value = (execute fe P s r old).2.val ∧ m.ca = (execute fe P s r old).2.ca ∧
-      m.dur = (execute fe P s r old).2.dur := by
+      m.res = (execute fe P s r old).2 := by
   have hrun := run_ok hfe (P r) (hP r) (emit s (.exec r)) frame0 (inv_emit _ hI) hI.cur1
   generalize hr0 : runBody fe (P r) (emit s (.exec r)) frame0 = r0 at hrun hback
-  obtain ⟨k1, k2, k3, _, k5, k5d, new, k6, k7, k8⟩ := hrun
+  obtain ⟨k1, k2, k3, _, k5, k5d, _, new, k6, k7, k7a, k8⟩ := hrun
   replace k2 : Ext s r0.1 r := Ext.trans (ext_emit s _ r) k2
   replace k3 : r0.2.2 = evalB (semDep P s.inp) (P r) := k3
   replace k5 : r0.2.1.ca ≤ s.cur := k5
-  simp only [frame0, List.nil_append] at k6 k5d
+  simp only [frame0, List.nil_append] at k6 k5d k7a
+  generalize hobs' : discardEdges r0.2.1.dur r0.2.1.accIn r0.2.1.obs = obs'
+  have k8' : ∀ o, o ∈ obs' → ReadOk r r0.1 r0.2.1 o := by
+    rw [← hobs', k6]; exact discard_readOk k8
+  have k7' : replay (P r) (obsPairs obs') = some r0.2.2 := by
+    rw [← hobs', discard_pairs, k6]; exact k7
+  have k7a' : replayAcc (P r) (obsPairs obs') = r0.2.1.acc := by
+    rw [← hobs', discard_pairs, k6, k7a]
   have hexec : execute fe P s r old =
-      (setMemo r0.1 r (newMemo r0.2.2 r0.1.cur (backdateCa old r0.2.2 r0.2.1) r0.2.1.dur r0.2.1.obs),
-       ⟨r0.2.2, backdateCa old r0.2.2 r0.2.1, r0.2.1.dur⟩) := by
-    simp only [execute, hr0]
+      (setMemo r0.1 r (newMemo r0.2.2 r0.1.cur (backdateCa old r0.2.2 r0.2.1) r0.2.1.dur obs' r0.2.1.acc r0.2.1.accIn),
+       (newMemo r0.2.2 r0.1.cur (backdateCa old r0.2.2 r0.2.1) r0.2.1.dur obs' r0.2.1.acc r0.2.1.accIn).res) := by
+    simp only [execute, hr0, hobs']
   rw [hexec]
   generalize hca : backdateCa old r0.2.2 r0.2.1 = ca
   have hmr : r0.1.memos r = old := by rw [k2.above r (Nat.le_refl r)]; exact hold
@@ -45,30 +71,39 @@ theorem execute_ok {P r fe} (hP : Wf P) (hfe : FetchSpec P r fe) (s : State) (ol
       · have := hI.memo r o hold
         exact Nat.le_trans this.ca_va this.va_cur
       · exact k5
-  have hnr : ∀ o, o ∈ new → o.dep ≠ .qry r := by
+  have hnr : ∀ o, o ∈ obs' → o.dep ≠ .qry r := by
     intro o hm hd
-    have := (k8 o hm).2.2 r hd
+    have := (k8' o hm).below r hd
     omega
-  have hok : MemoOk P (setMemo r0.1 r (newMemo r0.2.2 r0.1.cur ca r0.2.1.dur r0.2.1.obs)) r
-      (newMemo r0.2.2 r0.1.cur ca r0.2.1.dur r0.2.1.obs) := by
-    simp only [newMemo]
-    refine ⟨hca_le, Nat.le_refl _, by simp only; rw [k2.cur]; exact hI.cur1, Nat.le_refl _, k5d,
-      by simp only; rw [k6]; exact k7, ?_, ?_, ?_, ?_, ?_, ?_, ?_⟩
+  generalize hM : newMemo r0.2.2 r0.1.cur ca r0.2.1.dur obs' r0.2.1.acc r0.2.1.accIn = M
+  have hMv : M.value = r0.2.2 := by rw [← hM]; rfl
+  have hMva : M.va = r0.1.cur := by rw [← hM]; rfl
+  have hMca : M.ca = ca := by rw [← hM]; rfl
+  have hMdur : M.dur = r0.2.1.dur := by rw [← hM]; rfl
+  have hMdeep : M.deepAt = r0.1.cur := by rw [← hM]; rfl
+  have hMobs : M.obs = obs' := by rw [← hM]; rfl
+  have hMacc : M.acc = r0.2.1.acc := by rw [← hM]; rfl
+  have hMaccIn : M.accIn = r0.2.1.accIn := by rw [← hM]; rfl
+  have hok : MemoOk P (setMemo r0.1 r M) r M := by
+    refine ⟨by rw [hMca, hMva]; exact hca_le, by rw [hMva]; exact Nat.le_refl _,
+      by rw [hMva, k2.cur]; exact hI.cur1, by rw [hMdeep, hMva]; exact Nat.le_refl _, by rw [hMdur]; exact k5d,
+      by rw [hMobs, hMv]; exact k7', by rw [hMobs, hMacc]; exact k7a', ?_, ?_, ?_, ?_, ?_, ?_, ?_, ?_, ?_⟩
     · -- i2
       intro o hm x hinfo _
-      simp only at hm; rw [k6] at hm
+      rw [hMobs] at hm
       rw [depInfo_setMemo_other _ _ _ (hnr o hm)] at hinfo
-      obtain ⟨_, ⟨x0, h0, hv0, _, hd0, _⟩, _⟩ := k8 o hm
+      obtain ⟨_, ⟨x0, h0, hv0, _, hd0, _⟩, _⟩ := k8' o hm
       rw [h0] at hinfo; cases hinfo
-      exact ⟨hv0, hd0⟩
+      exact ⟨hv0, by rw [hMdur]; exact hd0⟩
     · -- i3
       intro _ o hm
-      simp only at hm; rw [k6] at hm
-      obtain ⟨hh, ⟨x0, h0, _, hc0, _, _⟩, _⟩ := k8 o hm
+      rw [hMobs] at hm
+      obtain ⟨hh, ⟨x0, h0, _, hc0, _, _⟩, _⟩ := k8' o hm
       refine ⟨?_, ?_⟩
       · intro x hinfo
         rw [depInfo_setMemo_other _ _ _ (hnr o hm)] at hinfo
         rw [h0] at hinfo; cases hinfo
+        rw [hMva]
         exact Nat.le_trans hc0 (by rw [k2.cur]; exact k5)
       · rw [sokDep_setMemo_other _ _ _ (hnr o hm)]
         cases hd : o.dep with
@@ -78,60 +113,71 @@ theorem execute_ok {P r fe} (hP : Wf P) (hfe : FetchSpec P r fe) (s : State) (ol
           obtain ⟨m2, hm2, hv2⟩ := hh
           exact ⟨m2, hm2, Or.inl hv2⟩
     · -- i4
-      left; simp only [setMemo_lc]; exact k1.lc_le _
+      left; rw [hMdeep]; simp only [setMemo_lc]; exact k1.lc_le _
     · -- i5
       intro o q' hm hd
-      simp only at hm; rw [k6] at hm
-      obtain ⟨hh, _, hlt⟩ := k8 o hm
+      rw [hMobs] at hm
+      obtain ⟨hh, _, hlt⟩ := k8' o hm
       rw [hd] at hh
       obtain ⟨m2, hm2, hv2⟩ := hh
       have hne : q' ≠ r := by have := hlt q' hd; omega
-      exact ⟨hlt q' hd, m2, by rw [setMemo_other _ _ _ hne]; exact hm2, fun _ => by simp only; rw [hv2]; exact Nat.le_refl _⟩
+      exact ⟨hlt q' hd, m2, by rw [setMemo_other _ _ _ hne]; exact hm2,
+        fun _ => by rw [hMdeep, hv2]; exact Nat.le_refl _⟩
     · -- i6
       intro o hm hrec x hinfo
-      simp only at hm; rw [k6] at hm
+      rw [hMobs] at hm
       rw [depInfo_setMemo_other _ _ _ (hnr o hm)] at hinfo
-      obtain ⟨_, ⟨x0, h0, hv0, _, _, h3⟩, _⟩ := k8 o hm
+      obtain ⟨_, ⟨x0, h0, hv0, _, _, h3, _⟩, _⟩ := k8' o hm
       rw [h0] at hinfo; cases hinfo
-      exact ⟨hv0, h3 hrec⟩
+      exact ⟨hv0, (h3 hrec).1⟩
     · -- g4
       intro w d _ _ h
-      simp only at h
+      rw [hMdeep, hMva] at h
       exact absurd h.1 (Nat.not_lt.mpr h.2)
     · -- i10
       intro o hm x hinfo
-      simp only at hm; rw [k6] at hm
+      rw [hMobs] at hm
       rw [depInfo_setMemo_other _ _ _ (hnr o hm)] at hinfo
-      obtain ⟨_, ⟨x0, h0, _, hc0, _, _⟩, _⟩ := k8 o hm
+      obtain ⟨_, ⟨x0, h0, _, hc0, _, _⟩, _⟩ := k8' o hm
       rw [h0] at hinfo; cases hinfo
-      left; exact Nat.le_trans hc0 (by rw [k2.cur]; exact k5)
+      left; rw [hMva]; exact Nat.le_trans hc0 (by rw [k2.cur]; exact k5)
+    · -- a2
+      intro _ ha o hm x hinfo
+      rw [hMobs] at hm
+      rw [depInfo_setMemo_other _ _ _ (hnr o hm)] at hinfo
+      obtain ⟨_, ⟨x0, h0, _, _, _, _, hfa⟩, _⟩ := k8' o hm
+      rw [h0] at hinfo; cases hinfo
+      exact hfa (by rw [← hMaccIn]; exact ha)
+    · -- a3
+      intro o hm hrec x hinfo
+      rw [hMobs] at hm
+      rw [depInfo_setMemo_other _ _ _ (hnr o hm)] at hinfo
+      obtain ⟨_, ⟨x0, h0, _, _, _, h3, _⟩, _⟩ := k8' o hm
+      rw [h0] at hinfo; cases hinfo
+      exact (h3 hrec).2
   -- observers
   have hobs : ∀ p mp o, p ≠ r → r0.1.memos p = some mp → o ∈ mp.obs → o.dep = .qry r →
-      (ca ≤ mp.va → r0.2.2 = o.val ∧ mp.dur ≤ r0.2.1.dur) ∧
-      (SOK r0.1 mp → ca ≤ mp.va) ∧
-      (o.recd = false → r0.2.2 = o.val ∧ 3 ≤ r0.2.1.dur) ∧
-      (ca ≤ mp.va ∨ ∃ w d, (w, d) ∈ r0.1.wlog ∧ mp.dur ≤ d ∧ mp.va < w ∧ w ≤ ca) := by
+      ObsNeeds r0.1 M mp o := by
     intro p mp o hpr hmp ho hdq
     have ok := k1.memo p mp hmp
     obtain ⟨_, mo, hmo, hdeep⟩ := ok.i5 o r ho hdq
     rw [hmr] at hmo
     subst hmo
-    have hinfo : depInfo r0.1 o.dep = some ⟨mo.value, mo.ca, mo.dur⟩ := by rw [hdq]; simp [depInfo, hmr]
+    have hinfo : depInfo r0.1 o.dep = some mo.res := by rw [hdq]; simp [depInfo, hmr]
     have mook := k1.memo r mo hmr
+    have hns : ¬ SOK r0.1 mo := by
+      intro h
+      apply hnsok mo rfl
+      cases h with
+      | inl h => left; rw [h, k2.cur]
+      | inr h => right; rw [← k2.lc]; exact h
     by_cases hbd : mo.value = r0.2.2 ∧ mo.dur ≤ r0.2.1.dur
     · -- backdated: value and stamp unchanged
       have hca' : ca = mo.ca := by rw [← hca]; simp only [backdateCa, hbd, and_self, if_true]
-      have := hobs_same (q := r) (mo := mo) k1 hmr (newMemo r0.2.2 r0.1.cur ca r0.2.1.dur r0.2.1.obs)
-        hbd.1.symm hca' hbd.2 p mp o hpr hmp ho hdq
-      exact this
+      exact hobs_same (q := r) (mo := mo) k1 hmr M (by rw [hMv]; exact hbd.1.symm) (by rw [hMca]; exact hca')
+        (by rw [hMdur]; exact hbd.2) (Or.inr hns) p mp o hpr hmp ho hdq
     · -- not backdated
       have hca' : ca = r0.2.1.ca := by rw [← hca]; simp only [backdateCa, hbd, if_false]
-      have hns : ¬ SOK r0.1 mo := by
-        intro h
-        apply hnsok mo rfl
-        cases h with
-        | inl h => left; rw [h, k2.cur]
-        | inr h => right; rw [← k2.lc]; exact h
       have hnsmp : ¬ SOK r0.1 mp := by
         intro h
         have := (ok.i3 h o ho).2
@@ -161,20 +207,22 @@ theorem execute_ok {P r fe} (hP : Wf P) (hfe : FetchSpec P r fe) (s : State) (ol
         · exact Nat.lt_of_lt_of_le (key hle2) hle
         · have h1 : mp.va < mo.ca := Nat.lt_of_not_le hle2
           exact Nat.lt_of_lt_of_le (Nat.lt_of_lt_of_le (Nat.lt_of_lt_of_le h1 mook.ca_va) (Nat.le_of_lt hlt)) hle
-      refine ⟨?_, ?_, ?_, ?_⟩
-      · intro h; exact absurd h (Nat.not_le.mpr hgt)
+      refine ⟨?_, ?_, ?_, ?_, ?_⟩
+      · intro h; rw [hMca] at h; exact absurd h (Nat.not_le.mpr hgt)
       · intro h; exact absurd h hnsmp
       · intro h; rw [hrec] at h; cases h
-      right
-      by_cases hle2 : mo.ca ≤ mp.va
-      · exact ⟨w, d, hw, Nat.le_trans (ok.i2 o ho _ hinfo hle2).2 hd, key hle2, by rw [hca']; exact hle⟩
-      · rcases ok.i10 o ho _ hinfo with h | ⟨w2, d2, a, b, c, e⟩
-        · exact absurd h hle2
-        · refine ⟨w2, d2, a, b, c, ?_⟩
-          rw [hca']
-          exact Nat.le_trans e (Nat.le_trans mook.ca_va (Nat.le_trans (Nat.le_of_lt hlt) hle))
-  have hinv := inv_setMemo (q := r) (m' := newMemo r0.2.2 r0.1.cur ca r0.2.1.dur r0.2.1.obs) k1 hok rfl hobs
-  refine ⟨hinv, ?_, by simp only; rw [k3, sem_unfold P s.inp hP r], ?_⟩
+      · right
+        rw [hMca]
+        by_cases hle2 : mo.ca ≤ mp.va
+        · exact ⟨w, d, hw, Nat.le_trans (ok.i2 o ho _ hinfo hle2).2 hd, key hle2, by rw [hca']; exact hle⟩
+        · rcases ok.i10 o ho _ hinfo with h | ⟨w2, d2, a, b, c, e⟩
+          · exact absurd h hle2
+          · refine ⟨w2, d2, a, b, c, ?_⟩
+            rw [hca']
+            exact Nat.le_trans e (Nat.le_trans mook.ca_va (Nat.le_trans (Nat.le_of_lt hlt) hle))
+      · intro h; exact absurd h hnsmp
+  have hinv := inv_setMemo (q := r) (m' := M) k1 hok hMva hobs
+  refine ⟨hinv, ?_, by rw [← hM]; show r0.2.2 = _; rw [k3, sem_unfold P s.inp hP r], ?_⟩
   · refine ⟨by simp [k2.cur], by simp [k2.lch], by simp [k2.inp], by simp [k2.wlog], ?_, ?_, ?_, ?_, ?_⟩
     · intro q hq
       have hne : q ≠ r := by omega
@@ -188,9 +236,8 @@ theorem execute_ok {P r fe} (hP : Wf P) (hfe : FetchSpec P r fe) (s : State) (ol
       · subst hqr
         have mok := hI.memo q m hm
         refine ⟨_, setMemo_same _ _ _, ?_, ?_⟩
-        · show m.va ≤ r0.1.cur
-          rw [k2.cur]; exact mok.va_cur
-        · show m.ca ≤ ca
+        · rw [hMva, k2.cur]; exact mok.va_cur
+        · rw [hMca]
           have hom : old = some m := by rw [← hold]; exact hm
           rw [← hca, hom]
           simp only [backdateCa]
@@ -201,21 +248,21 @@ theorem execute_ok {P r fe} (hP : Wf P) (hfe : FetchSpec P r fe) (s : State) (ol
       · rw [setMemo_other _ _ _ hqr]; exact k2.mono q m hm
     · intro q
       by_cases hqr : q = r
-      · subst hqr; exact Or.inr ⟨_, setMemo_same _ _ _, k2.cur⟩
+      · subst hqr; exact Or.inr ⟨_, setMemo_same _ _ _, by rw [hMva]; exact k2.cur⟩
       · rw [setMemo_other _ _ _ hqr]; exact k2.touched q
     · intro q m m' hm hm' hv hd
       by_cases hqr : q = r
       · subst hqr
         rw [setMemo_same] at hm'
-        have e : m' = newMemo r0.2.2 r0.1.cur ca r0.2.1.dur r0.2.1.obs := (Option.some.inj hm').symm
+        have e : m' = M := (Option.some.inj hm').symm
         subst e
         have hom : old = some m := by rw [← hold]; exact hm
-        simp only [newMemo] at hv hd ⊢
-        rw [← hca, hom]
+        rw [hMv] at hv; rw [hMdur] at hd
+        rw [hMca, ← hca, hom]
         simp only [backdateCa]
         rw [if_pos ⟨hv.symm, hd⟩]
       · rw [setMemo_other _ _ _ hqr] at hm'; exact k2.bd q m m' hm hm' hv hd
-  · exact ⟨_, setMemo_same _ _ _, by show r0.1.cur = s.cur; exact k2.cur, rfl, rfl, rfl⟩
+  · exact ⟨_, setMemo_same _ _ _, by rw [hMva]; exact k2.cur, rfl⟩
 
 theorem depInfo_ca_le {P s d x} (hI : Inv P s) (h : depInfo s d = some x) : x.ca ≤ s.cur := by
   cases d with
@@ -264,7 +311,7 @@ theorem depInfo_exists {P s q m o} (hI : Inv P s) (hm : s.memos q = some m) (ho 
   | inp i => exact ⟨_, rfl⟩
   | qry q' =>
     obtain ⟨_, m2, hm2, _⟩ := (hI.memo q m hm).i5 o q' ho hd
-    exact ⟨⟨m2.value, m2.ca, m2.dur⟩, by simp [depInfo, hm2]⟩
+    exact ⟨m2.res, by simp [depInfo, hm2]⟩
 
 theorem obs_ne_self {P s q m o} (hI : Inv P s) (hm : s.memos q = some m) (ho : o ∈ m.obs) : o.dep ≠ .qry q := by
   intro hd
